@@ -586,6 +586,7 @@ def column_status(values):
     if k == "array":
         ranks = set()
         leafkinds = set()
+        beyond = False
         for v in values:
             a = v if isinstance(v, np.ndarray) else None
             if a is None:
@@ -596,13 +597,14 @@ def column_status(values):
                 leafkinds |= {kind_of_py(x) for x in sl[1]}
                 if any(kind_of_py(x) == "int" and (x < -B63 or x >= B64) for x in sl[1]):
                     return False, k, False
+                beyond = beyond or any(kind_of_py(x) == "int" and x >= B63 for x in sl[1])
             else:
                 ranks.add(a.ndim)
         if len(ranks) > 1:
             return False, k, False                  # documented normalisation: leading axes are prepended
-        if len(leafkinds) > 1 and leafkinds != {"int", "float"} and leafkinds != {"bool", "int"}:
-            return False, k, False                  # numbers and strings in one array property
-        return True, k, False
+        if len(leafkinds) > 1:
+            return False, k, False                  # leaves of different Python types in one array property: a mixed-kind column
+        return True, k, beyond
     return True, k, False
 
 
@@ -707,8 +709,13 @@ def compare(c, exp, got_directed, got_nodes, got_edges, reader, axes):
                 if ek != gk and not lenient:
                     tags = {"why": "kind", "int_beyond_int64": bool(status[k][2])}
                     return (f"{what} {key} property {k!r}: {ek} value {ev!r} came back as {gk} {canon_value_to_py(gv)!r}", tags)
+                if ek == "array" and status[k][2] and gv[0] == "a" and gv[1] == "float":
+                    tags = {"why": "kind", "int_beyond_int64": True}
+                    return (f"{what} {key} property {k!r}: integer array {ev!r} came back with float elements {canon_value_to_py(gv)!r}", tags)
                 if not num_equal(ev, gv):
                     tags = {"why": "value", "int_beyond_int64": bool(status[k][2])}
+                    if ek == "array" and any(isinstance(x, (list, tuple)) and (list_shape_leaves(x) or ((), [0]))[1] == [] for x in cols[k]):
+                        tags["empty_list"] = True     # an empty list is typed float64 by numpy and drags the column along
                     return f"{what} {key} property {k!r}: {ev!r} came back as {canon_value_to_py(gv)!r}", tags
     return None
 
@@ -742,6 +749,9 @@ def oracle(c, o):
                     return None
     if c["reader"] == "sg" and not sg_in_domain(exp, axes, c["pos"]):
         return None
+    if c["reader"] == "sg" and w["lib"] == "mem" and any(p["missing"] is not None and any(p["missing"]["data"])
+                                                          for ps in (w["nprops"], w["eprops"]) for p in ps.values()):
+        return None                                     # spatial-graph has no missing values (documented)
     if w["lib"] == "sg" and (not axes and exp["nodes"]):
         return None
     if "exc" in o:
@@ -949,8 +959,13 @@ SG_TEMPLATES = {
 }
 
 
+NONNEG = [False]
+
+
 def small_leaf(rng, kind):
-    return rng.randint(-50, 50) if kind == "int" else rng.randint(-400, 400) / 4
+    if kind == "int":
+        return rng.randint(0, 50) if NONNEG[0] else rng.randint(-50, 50)
+    return rng.randint(-400, 400) / 4
 
 
 def template_nx(rng, tname, directed, n=None):
@@ -974,7 +989,9 @@ def template_nx(rng, tname, directed, n=None):
 def template_sg(rng, tname, directed, node_dtype="uint64", fdt="float64", idt="int64", n=None, md_mode=None):
     """A spatial_graph object of the template's signature."""
     t = SG_TEMPLATES[tname]
+    NONNEG[0] = idt.startswith("uint")
     w = template_nx(rng, tname, directed, n)
+    NONNEG[0] = False
     info = np.iinfo(node_dtype)
     ids = []
     while len(ids) < len(w["nodes"]):
@@ -1182,7 +1199,7 @@ def generate(rng: random.Random, tier: str):
                 for r in ("nx", "rx", "sg"):
                     out.append(case(wm, r, fmt))
     # other dtypes through spatial-graph (each is a separately compiled class: few of them)
-    variants = [("T2", "uint8", "float32", "int16")] + ([] if quick else [("T2", "int32", "float64", "uint16"), ("T3", "uint16", "float64", "int8"), ("T1", "int64", "float32", "int64")])
+    variants = [("T2", "uint8", "float32", "int16")] + ([] if quick else [("T2", "int32", "float64", "uint16"), ("T3", "uint16", "float64", "int32"), ("T1", "int64", "float32", "int64")])
     for tname, ndt, fdt, idt in variants:
         for directed in (True, False) if not quick else (True,):
             for k in range(2 if quick else 5):
